@@ -302,7 +302,10 @@ def apply_contract_at_call(I, c, f, args, kwargs, node):
                 raise PyRaise(exc, lineno=getattr(node, 'lineno', None))
         if c.result_spec is None:
             raise Unsupported(f"contract {c.qualname} has no result spec for call-site use")
-        res = c.result_spec.make(I, st.fresh_name('ret_' + c.qualname.replace('.', '_')))
+        rs = c.result_spec
+        if callable(rs) and not hasattr(rs, 'make'):
+            rs = rs(bound)
+        res = rs.make(I, st.fresh_name('ret_' + c.qualname.replace('.', '_')))
         env.vars['result'] = res
         for cl in c.ensures:
             st.assume(eval_clause(I, cl.expr, env))
